@@ -15,7 +15,7 @@ using namespace CDNS;
 static const char* EXT[] = {"", ".gz", ".xz"};
 
 struct Chunk { size_t size; int cls; uint64_t seed; };
-struct Step { bool rotate; Chunk ch; };
+struct Step { bool rotate; Chunk ch; bool bad_first = false; };   // bad_first: the rotation is first attempted onto a destination that cannot be opened
 
 static void fill(std::string& out, const Chunk& c) {
   size_t base = out.size();
@@ -55,6 +55,13 @@ static void rotate(BaseCborOutputWriter& w, Target& t) {
   std::string b = t.next_name();
   if (t.named) w.rotate_output(boost::any(b)); else w.rotate_output(boost::any(t.open_fd(b)));
 }
+// rotation onto a destination that cannot be opened: must be refused with a CborOutputException (documented @throw)
+static bool rotate_bad(BaseCborOutputWriter& w, Target& t) {
+  try {
+    if (t.named) w.rotate_output(boost::any(std::string("/nonexistent-vf-directory/out"))); else w.rotate_output(boost::any((int)1000123));
+  } catch (const CborOutputException&) { return true; }
+  return false;
+}
 
 static void run_plan(Case& cs, const std::vector<Step>& plan, int comp, bool named, const std::string& desc) {
   // expected content per output = concatenation of the chunks written to it
@@ -65,7 +72,13 @@ static void run_plan(Case& cs, const std::vector<Step>& plan, int comp, bool nam
     auto wp = make_writer(tp);
     std::string buf;
     for (auto& s : plan) {
-      if (s.rotate) { rotate(*wc, tc); rotate(*wp, tp); expect.emplace_back(); continue; }
+      if (s.rotate) {
+        if (s.bad_first) {
+          bool rc_ = rotate_bad(*wc, tc), rp_ = rotate_bad(*wp, tp);
+          VF_CHECK(rc_ == rp_, "sig=c14.bad_destination rotation onto a destination that cannot be opened: compressed writer " << (rc_ ? "threw CborOutputException" : "did not throw") << ", plain writer " << (rp_ ? "threw" : "did not throw") << " : " << desc);
+        }
+        rotate(*wc, tc); rotate(*wp, tp); expect.emplace_back(); continue;
+      }
       buf.clear();
       fill(buf, s.ch);
       wc->write(buf.data(), buf.size());
@@ -102,7 +115,7 @@ static void c14_plan(Case& cs) {
   std::string desc = std::string(comp == 1 ? "gzip" : "xz") + (named ? " name" : " fd") + ":";
   for (unsigned i = 0; i < n; i++) {
     Step s; s.rotate = c.range(0, 5) == 0;
-    if (s.rotate) { rots++; desc += " R"; plan.push_back(s); continue; }
+    if (s.rotate) { s.bad_first = c.range(0, 3) == 0; rots++; desc += s.bad_first ? " R(bad,then good)" : " R"; if (s.bad_first) cs.st.cls("rotation_onto_unopenable_destination_first"); plan.push_back(s); continue; }
     uint64_t m = c.range(0, 7);
     size_t sz;
     if (m == 0) sz = 0; else if (m == 1) sz = 1; else if (m == 2) sz = c.pick<size_t>({2047, 2048, 2049, 4096, 65535, 65536});
